@@ -23,6 +23,9 @@ DoubleQuotes(fld) ==
 
 CsvField(fld, sep) == IF NeedsQuotes(fld, sep) THEN <<DQ>> \o DoubleQuotes(fld) \o <<DQ>> ELSE fld
 
-\* one record, without the line terminator
-CsvEncode(flds, sep) == Join([j \in 1..Len(flds) |-> CsvField(flds[j], sep)], sep)
+\* one record, without the line terminator.  A record consisting of one empty field is written
+\* as "" (an empty line would read back as no record at all).
+CsvEncode(flds, sep) ==
+  IF flds = << <<>> >> THEN <<DQ, DQ>>
+  ELSE Join([j \in 1..Len(flds) |-> CsvField(flds[j], sep)], sep)
 =============================================================================
